@@ -14,7 +14,10 @@
  *   sc<sig>               the signal is delivered to a forked child of this process (mt_as_child): "Fc <pid>",
  *                         "Sd"/"Sx", "Fx <pid>" -- the parent's handlers must not be triggered
  *   cn<c>                 child c is created as a stranger (not forked by the library): "a cn<c> pid=<pid>"
- *   ir<j>=<c>             iv_wait_interest_register of interest j for the pid of child c ("a ir<j>=<c> pid=<pid>" .. "A ir<j>")
+ *   ir<j>=<c>             iv_wait_interest_register of interest j for the pid of child c ("a ir<j>=<c> pid=<pid>" .. "A ir<j>").
+ *                         Guards (API contract): no other interest registered for that child, its termination not reaped; while
+ *                         the call is in flight wait4 does not report this child's changes (they are reported right after),
+ *                         so that the pid is an unreaped child when the interest enters the tree
  *   is<j>=<c>[.<st>]      iv_wait_interest_register_spawn; the new child becomes child c; with <st> the child
  *                         changes state at once (inside fork, before the parent inserts the interest)
  *                         log: "a is<j>=<c>" .. "Fk <pid>" .. "A is<j> pid=<pid> rc=<rc>"
@@ -22,6 +25,7 @@
  *   ik<j>=<sig>           iv_wait_interest_kill                  log: "a ik<j>=<sig>" [.. "Ki <pid> <sig> ok"] .. "A ik<j>=<rc>"
  *   cs<c>=<st>[@<thr>]    child c changes state: <st> = s (stopped) | c (continued) | e<n> (exit n) | k<n> (killed
  *                         by signal n); SIGCHLD becomes pending (for thread thr if given).  "a cs<c>=<st> pid=<pid> st=<status>"
+ *                         (ignored once the child has terminated; at most 48 changes per scenario)
  *   pr<j>=<r|w>.<c>.<b>   iv_popen_request_submit of request j, type r/w; the child becomes child c with behaviour
  *                         b = e<n> (exits at once with code n) | t<n> (dies from the n-th SIGTERM, n >= 1) | i (ignores
  *                         SIGTERM); SIGKILL always kills; a later cs<c>=.. lets it end on its own between two signals.
